@@ -44,7 +44,8 @@ def p2p_build(rng, d):
             data[20] = {"reg": 0x10, "dmr": 0x11, "rdac": 0x12}[cls]
         return bytes(data)
     if cls == "ping":
-        data = bytearray(gen.rbytes(rng, rng.randrange(15, 32)))
+        # a keep-alive is recognised by octets 4..8 alone; ovf = it ends before octet 14 (9..14 octets)
+        data = bytearray(gen.rbytes(rng, rng.randrange(9, 15) if d["ovf"] else rng.choice([15, 15, 16, rng.randrange(15, 32)])))
         if data[:3] == b"P2P":
             data[0] = 0
         data[4:9] = PING
@@ -414,7 +415,7 @@ def run(ctx):
                 steps.append(("configure", src, None, (src[0], 50010 + ctx.rng.randrange(3))))
             else:
                 cls = ctx.rng.choices(["reg", "dmr", "rdac", "ping", "ack", "unk", "garbage"], weights=[4, 5, 5, 5, 2, 2, 2])[0]
-                steps.append(("recv", src, {"cls": cls, "ovf": cls in ("reg", "dmr", "rdac") and ctx.rng.random() < 0.1}, None))
+                steps.append(("recv", src, {"cls": cls, "ovf": cls in ("reg", "dmr", "rdac", "ping") and ctx.rng.random() < 0.12}, None))
         jobs.append((ctx.seed * 5 + i, steps))
     with Pool(core.NCPU) as pool:
         hist = pool.map(p2p_run, jobs, chunksize=8)
